@@ -686,6 +686,7 @@ func engineConc(x *X) {
 		}
 	}
 	w := newWorld(x, p.Knobs, root, p.Knobs.Store)
+	w.served, _ = p.Extra["served"].(bool)
 	w.open()
 	// sequential prologue (client 0 of the plan), model-checked as usual
 	for i, op := range p.Clients[0] {
@@ -1297,6 +1298,15 @@ func planC12(prop string, seed uint64, tier string, idx int) *Plan {
 	if idx%5 == 4 {
 		// Close at an arbitrary point with requests in flight (liveness only)
 		g.p.Profile += " (close in flight)"
+		if prop == "C12" && g.r.chance(50) {
+			// the server runs behind Server.Run and is ended by Server.Shutdown: requests in flight are waited for, a
+			// connection that was open still carries one request
+			g.p.Extra["served"] = true
+			g.p.Profile += ", Run/Shutdown"
+			if g.r.chance(50) {
+				k.RateLimit = 1000000 // (the limiter's lock is on the path of every request)
+			}
+		}
 		ms := int64(g.r.pick(0, 1, 3, 20))
 		if f := k.freq(); f > 0 && g.r.chance(50) {
 			// Close and a collection tick become due at the same instant
